@@ -4,6 +4,8 @@ C13 / C14 / C15, continued (part 3 of the pcd refinement): what the pure-Python 
 kernel maintains; then the simulation between the functional kernel and the definition.
 -/
 import PymoodeProofs.C13e
+import PymoodeProofs.C15b
+import Mathlib.Tactic.Ring
 
 set_option linter.unusedSectionVars false
 set_option linter.unusedVariables false
@@ -280,6 +282,302 @@ theorem nextOf_ne (s : List Nat) (hs : s.Nodup) (k : Nat) (hk : k ∈ s) (h1 : s
   rw [getD_of_lt s _ h1] at h
   have := idxOf_getElem_nodup s hs (s.idxOf k + 1) h1
   rw [h] at this; omega
+
+
+/-- one pass of the kernel's `while` loop (the body of `pcdLoopF`) -/
+def pcdStepF (x : List (List α)) (c : α) (ex : List Nat) (st : PcdState α) : PcdState α :=
+  let k := (dropLast st.d st.h).getD 0
+  let h' := st.h.filter (· != k)
+  let r := pcdGetCalcItems k st.cols
+  let items := r.2.1.filter fun i => !ex.contains i
+  let it := pcdIter x c r.1 items (st.dmat, st.ok && r.2.2)
+  let d' := pcdCalcD it.1 items st.d
+  { cols := r.1, dmat := it.1, d := d', h := h', ok := it.2 }
+
+theorem pcdLoopF_succ (x : List (List α)) (c : α) (ex : List Nat) (fuel : Nat) (st : PcdState α) :
+    pcdLoopF x c ex (fuel + 1) st = pcdLoopF x c ex fuel (pcdStepF x c ex st) := rfl
+
+/-- the definition's (undivided) crowding sum of a live non-extreme point -/
+def sumF (f : List (List α)) (M : Nat) (live : List Nat) (i : Nat) : Ext α :=
+  (List.range M).foldl (fun acc m => Ext.add acc (Ext.fin (gapF f M live i m))) (Ext.fin 0)
+
+/-- the columns the kernel maintains -/
+def colsOf (f : List (List α)) (M : Nat) (live : List Nat) : List (List Nat) :=
+  (List.range M).map fun m => padLast (Scol f m live) f.length
+
+/-- the kernel's row of gaps of point `i` -/
+def rowK (f : List (List α)) (M : Nat) (c : α) (live : List Nat) (i : Nat) : List (Ext α) :=
+  rowOf (normalizeCols f M) c (fun m => Scol f m live) M i
+
+theorem rowK_length (f : List (List α)) (M : Nat) (c : α) (live : List Nat) (i : Nat) : (rowK f M c live i).length = M := by
+  simp [rowK, rowOf]
+
+/-- what the kernel sums for a point = the definition's sum divided by `c` -/
+theorem rowK_sum (f : List (List α)) (M : Nat) (c : α) (live : List Nat) (i : Nat) :
+    (rowK f M c live i).foldl Ext.add (Ext.fin 0) = Ext.mapFin (· / c) (sumF f M live i) := by
+  unfold rowK rowOf sumF
+  rw [List.foldl_map, div_fold]
+  have : Ext.mapFin (· / c) (Ext.fin (0 : α)) = Ext.fin 0 := by simp [Ext.mapFin]
+  rw [this]
+  apply List.foldl_ext
+  intro acc m hm
+  congr 2
+  unfold gapF
+  simp only []
+  ring
+
+/-- removing a point that is not adjacent to `i` in column `m` leaves the neighbours of `i` unchanged -/
+theorem neighbours_stable (f : List (List α)) (M : Nat) (live : List Nat) (hl : LiveOK f M live) (hmax : AllMaxOnce f M)
+    (r : Nat) (hr : r ∈ live) (hrne : r ∉ extremesFirst f M) (i : Nat) (hi : i ∈ live) (hir : i ≠ r)
+    (hine : i ∉ extremesFirst f M) (m : Nat) (hm : m < M)
+    (h1 : i ≠ prevOf (Scol f m live) r) (h2 : i ≠ nextOf (Scol f m live) r) :
+    prevOf (Scol f m (live.filter (· != r))) i = prevOf (Scol f m live) i ∧
+      nextOf (Scol f m (live.filter (· != r))) i = nextOf (Scol f m live) i := by
+  obtain ⟨hnd, _, _, himem, hi0, hi1⟩ := col_facts f M live hl hmax i hi hine m hm
+  obtain ⟨_, _, _, hrmem, hr0, hr1⟩ := col_facts f M live hl hmax r hr hrne m hm
+  have hS : Scol f m (live.filter (· != r)) = (Scol f m live).filter (· != r) :=
+    (sortedLive_filter (vf f m) live hl.pw _).symm
+  rw [hS]
+  have hp : prevOf (Scol f m live) i ≠ r := by
+    intro h
+    apply h2
+    rw [← h, next_of_prev _ hnd i himem hi0]
+  have hn : nextOf (Scol f m live) i ≠ r := by
+    intro h
+    apply h1
+    rw [← h, prev_of_next _ hnd i himem hi1]
+  obtain ⟨a, b, _⟩ := neighbours_erase (Scol f m live) hnd r i hrmem himem hir ⟨hi0, hi1⟩ hp hn
+  exact ⟨a, b⟩
+
+
+/-- simulation invariant between the kernel state and the definition's crowding array `dF` -/
+structure KInv (f : List (List α)) (M : Nat) (c : α) (st : PcdState α) (live : List Nat) (dF : List (Ext α)) : Prop where
+  h_eq : st.h = live
+  cols_eq : st.cols = colsOf f M live
+  dmat_len : st.dmat.length = f.length
+  dmat_rows : ∀ i, i < st.dmat.length → (st.dmat.getD i []).length = M
+  dmat_live : ∀ i ∈ live, i ∉ extremesFirst f M → st.dmat.getD i [] = rowK f M c live i
+  d_eq : st.d = dF.map (Ext.mapFin (· / c))
+  dF_scratch : ∃ old, dF = pcdScratch (normalizeCols f M) live M (extremesFirst f M) f.length old
+  ok : st.ok = true
+
+theorem scratch_length (x : List (List α)) (live : List Nat) (M : Nat) (ex : List Nat) (n : Nat) (old : List (Ext α)) :
+    (pcdScratch x live M ex n old).length = n := by
+  simp [pcdScratch]
+
+theorem contains_iff (ex : List Nat) (i : Nat) : ex.contains i = true ↔ i ∈ ex := by simp
+
+theorem liveOK_filter (f : List (List α)) (M : Nat) (live : List Nat) (hl : LiveOK f M live) (r : Nat)
+    (hr : r ∉ extremesFirst f M) : LiveOK f M (live.filter (· != r)) := by
+  refine ⟨hl.pw.filter _, fun i hi => hl.lt i (List.mem_filter.mp hi).1, fun e he => ?_⟩
+  rw [List.mem_filter]
+  refine ⟨hl.ex_in e he, ?_⟩
+  simp only [bne_iff_ne, ne_eq]
+  intro h; subst h; exact hr he
+
+/-- **one pass of the loop keeps the simulation**: the kernel and the definition remove the same point,
+the kernel's index arithmetic stays in range, and its lazily updated arrays agree with the
+definition's from-scratch recomputation -/
+theorem step_inv (f : List (List α)) (M : Nat) (c : α) (hc : 0 < c) (hmax : AllMaxOnce f M)
+    (st : PcdState α) (live : List Nat) (dF : List (Ext α)) (hl : LiveOK f M live)
+    (hinv : KInv f M c st live dF) (j : Nat) (hj : j ∈ live) (hjne : j ∉ extremesFirst f M) :
+    ∃ r, dropLast dF live = some r ∧ r ∈ live ∧ r ∉ extremesFirst f M ∧
+      KInv f M c (pcdStepF (normalizeCols f M) c (extremesFirst f M) st) (live.filter (· != r))
+        (pcdScratch (normalizeCols f M) (live.filter (· != r)) M (extremesFirst f M) f.length dF) := by
+  set x := normalizeCols f M with hx
+  set ex := extremesFirst f M with hex
+  set n := f.length with hn
+  obtain ⟨old, hold⟩ := hinv.dF_scratch
+  have hxlen : x.length = n := normalize_length f M
+  -- values of the definition's array
+  have hdF : ∀ i, i < n → dF.getD i Ext.top =
+      if ex.contains i then Ext.top else if i ∈ live then sumF f M live i else old.getD i Ext.top := by
+    intro i hi; rw [hold]; exact scratch_get f M live hl hmax old i hi
+  -- the point to drop
+  have hsome : ∃ r, dropLast dF live = some r := by
+    cases hd : dropLast dF live with
+    | some r => exact ⟨r, rfl⟩
+    | none =>
+      exfalso
+      unfold dropLast at hd
+      cases live with
+      | nil => cases hj
+      | cons a t =>
+        simp only [List.foldl_cons] at hd
+        have : ∀ (l : List Nat) (b : Nat), l.foldl (fun best i => match best with
+            | none => some i
+            | some b => if Ext.lt (dF.getD b Ext.top) (dF.getD i Ext.top) then some b else some i) (some b) ≠ none := by
+          intro l
+          induction l with
+          | nil => intro b; simp
+          | cons y ys ih =>
+            intro b
+            simp only [List.foldl_cons]
+            split <;> exact ih _
+        exact this t a hd
+  obtain ⟨r, hr⟩ := hsome
+  obtain ⟨hrl, hrmin⟩ := C15.dropLast_spec dF live r hr
+  have hrne : r ∉ ex := by
+    intro hre
+    have h1 := hrmin j hj
+    rw [hdF r (hl.lt r hrl), hdF j (hl.lt j hj)] at h1
+    have e1 : ex.contains r = true := (contains_iff ex r).mpr hre
+    have e2 : ex.contains j = false := by
+      cases h : ex.contains j
+      · rfl
+      · exact absurd ((contains_iff ex j).mp h) hjne
+    rw [e1, e2] at h1
+    simp only [↓reduceIte, Bool.false_eq_true, hj] at h1
+    obtain ⟨w, hw⟩ := fold_fin_isFin (fun m => gapF f M live j m) (List.range M) 0
+    unfold sumF at h1
+    rw [hw] at h1
+    simp [extLe, Ext.lt] at h1
+  refine ⟨r, hr, hrl, hrne, ?_⟩
+  have hl' := liveOK_filter f M live hl r hrne
+  set live' := live.filter (· != r) with hlive'
+  -- the kernel picks the same point
+  have hk : (dropLast st.d live).getD 0 = r := by
+    rw [hinv.d_eq, dropLast_map c hc, hr]; rfl
+  -- columns of the removed point
+  have hrcols : ∀ m ∈ List.range M, (Scol f m live).Nodup ∧ (Scol f m live).length ≤ n ∧ r ∈ Scol f m live ∧
+      Interior (Scol f m live) r := by
+    intro m hm
+    obtain ⟨a1, a2, _, a4, a5⟩ := col_facts f M live hl hmax r hrl hrne m (List.mem_range.mp hm)
+    exact ⟨a1, a2, a4, a5⟩
+  obtain ⟨its, hits, hmemits⟩ := getCalcItems_eval (fun m => Scol f m live) n r (List.range M) [] [] true hrcols
+  have hScol' : ∀ m, (Scol f m live).filter (· != r) = Scol f m live' := fun m =>
+    sortedLive_filter (vf f m) live hl.pw _
+  have hgci : pcdGetCalcItems r st.cols = (colsOf f M live', (its, true)) := by
+    unfold pcdGetCalcItems
+    rw [hinv.cols_eq]
+    unfold colsOf
+    rw [hits]
+    simp only [List.nil_append, hScol']
+    rfl
+  -- items to recompute
+  set items := its.filter (fun i => !ex.contains i) with hitems
+  have hitem_facts : ∀ i ∈ items, i ∈ live' ∧ i ∉ ex := by
+    intro i hi
+    rw [hitems, List.mem_filter] at hi
+    obtain ⟨hi1, hi2⟩ := hi
+    have hie : i ∉ ex := by
+      intro h; rw [(contains_iff ex i).mpr h] at hi2; simp at hi2
+    refine ⟨?_, hie⟩
+    rw [hmemits] at hi1
+    rcases hi1 with hi1 | ⟨m, hm, hi1⟩
+    · cases hi1
+    · obtain ⟨a1, a2, a3, a4, a5, a6⟩ := col_facts f M live hl hmax r hrl hrne m (List.mem_range.mp hm)
+      rw [hlive', List.mem_filter]
+      rcases hi1 with rfl | rfl
+      · exact ⟨(sortedLive_mem _ _ _).mp (prevOf_mem _ r a4), by simpa using prevOf_ne _ a1 r a4 a5⟩
+      · exact ⟨(sortedLive_mem _ _ _).mp (nextOf_mem _ r a6), by simpa using nextOf_ne _ a1 r a4 a6⟩
+  have hiter := iter_eval x c (fun m => Scol f m live') n M (st.ok && true) hxlen items st.dmat hinv.dmat_rows
+    (by
+      intro i hi
+      obtain ⟨h1, h2⟩ := hitem_facts i hi
+      refine ⟨by rw [hinv.dmat_len]; exact hl'.lt i h1, fun m hm => ?_⟩
+      exact col_facts f M live' hl' hmax i h1 h2 m hm)
+  -- unfold the step
+  have hstep : pcdStepF x c ex st =
+      { cols := colsOf f M live',
+        dmat := items.foldl (fun dm i => dm.set i (rowK f M c live' i)) st.dmat,
+        d := pcdCalcD (items.foldl (fun dm i => dm.set i (rowK f M c live' i)) st.dmat) items st.d,
+        h := live', ok := st.ok && true } := by
+    unfold pcdStepF
+    simp only [hinv.h_eq, hk, hgci]
+    rw [show (List.filter (fun i => !ex.contains i) its) = items from rfl]
+    unfold colsOf
+    rw [hiter]
+    rfl
+  rw [hstep]
+  obtain ⟨hdl, hdg⟩ := foldl_set_getD (fun i => rowK f M c live' i) ([] : List (Ext α)) items st.dmat
+  set dmat' := items.foldl (fun dm i => dm.set i (rowK f M c live' i)) st.dmat with hdmat'
+  -- rows of live non-extreme points after the pass
+  have hrows' : ∀ i ∈ live', i ∉ ex → dmat'.getD i [] = rowK f M c live' i := by
+    intro i hi hie
+    rw [hdg i]
+    have hil : i ∈ live := (List.mem_filter.mp hi).1
+    have hir : i ≠ r := by simpa using (List.mem_filter.mp hi).2
+    by_cases hit : i ∈ items
+    · rw [if_pos ⟨hit, by rw [hinv.dmat_len]; exact hl.lt i hil⟩]
+    · rw [if_neg (fun h => hit h.1), hinv.dmat_live i hil hie]
+      unfold rowK rowOf
+      apply List.map_congr_left
+      intro m hm
+      have hnotits : i ∉ its := by
+        intro h
+        apply hit
+        rw [hitems, List.mem_filter]
+        refine ⟨h, ?_⟩
+        cases hcc : ex.contains i
+        · rfl
+        · exact absurd ((contains_iff ex i).mp hcc) hie
+      have hna : i ≠ prevOf (Scol f m live) r ∧ i ≠ nextOf (Scol f m live) r := by
+        constructor
+        · intro h; apply hnotits; rw [hmemits]; exact Or.inr ⟨m, hm, Or.inl h⟩
+        · intro h; apply hnotits; rw [hmemits]; exact Or.inr ⟨m, hm, Or.inr h⟩
+      obtain ⟨e1, e2⟩ := neighbours_stable f M live hl hmax r hrl hrne i hil hir hie m (List.mem_range.mp hm) hna.1 hna.2
+      rw [hlive', e1, e2]
+  refine ⟨rfl, rfl, by rw [hdl]; exact hinv.dmat_len, ?_, hrows', ?_, ⟨dF, rfl⟩, by simp [hinv.ok]⟩
+  · intro i hi
+    rw [hdl] at hi
+    rw [hdg i]
+    split
+    · exact rowK_length f M c live' i
+    · exact hinv.dmat_rows i hi
+  · -- the crowding arrays
+    unfold pcdCalcD
+    obtain ⟨hcl, hcg⟩ := foldl_set_getD (fun i => (dmat'.getD i []).foldl Ext.add (Ext.fin 0)) (Ext.top : Ext α) items st.d
+    have hdlen : st.d.length = n := by
+      rw [hinv.d_eq, List.length_map, hold]; exact scratch_length _ _ _ _ _ _
+    apply ext_getD (Ext.top : Ext α)
+    · rw [hcl, hdlen, List.length_map]; exact (scratch_length _ _ _ _ _ _).symm
+    · intro i hi
+      rw [hcl, hdlen] at hi
+      rw [hcg i, getD_map_mapFin, scratch_get f M live' hl' hmax dF i hi]
+      by_cases hit : i ∈ items
+      · obtain ⟨h1, h2⟩ := hitem_facts i hit
+        rw [if_pos ⟨hit, by rw [hdlen]; exact hi⟩, hrows' i h1 h2, rowK_sum]
+        have : ex.contains i = false := by
+          cases hcc : ex.contains i
+          · rfl
+          · exact absurd ((contains_iff ex i).mp hcc) h2
+        rw [this]
+        simp only [Bool.false_eq_true, ↓reduceIte, h1]
+        rfl
+      · rw [if_neg (fun h => hit h.1), hinv.d_eq, getD_map_mapFin, hdF i hi]
+        by_cases hie : i ∈ ex
+        · rw [(contains_iff ex i).mpr hie]; simp [Ext.mapFin]
+        · have hcf : ex.contains i = false := by
+            cases hcc : ex.contains i
+            · rfl
+            · exact absurd ((contains_iff ex i).mp hcc) hie
+          rw [hcf]
+          simp only [Bool.false_eq_true, ↓reduceIte]
+          by_cases hil' : i ∈ live'
+          · have hil : i ∈ live := (List.mem_filter.mp hil').1
+            have hir : i ≠ r := by simpa using (List.mem_filter.mp hil').2
+            rw [if_pos hil, if_pos hil']
+            congr 1
+            -- same neighbours in every column: the point was not adjacent to the removed one
+            unfold sumF
+            apply List.foldl_ext
+            intro acc m hm
+            congr 2
+            have hnotits : i ∉ its := by
+              intro h
+              apply hit
+              rw [hitems, List.mem_filter]
+              exact ⟨h, by rw [hcf]; rfl⟩
+            have hna : i ≠ prevOf (Scol f m live) r ∧ i ≠ nextOf (Scol f m live) r := by
+              constructor
+              · intro h; apply hnotits; rw [hmemits]; exact Or.inr ⟨m, hm, Or.inl h⟩
+              · intro h; apply hnotits; rw [hmemits]; exact Or.inr ⟨m, hm, Or.inr h⟩
+            obtain ⟨e1, e2⟩ := neighbours_stable f M live hl hmax r hrl hrne i hil hir hie m (List.mem_range.mp hm) hna.1 hna.2
+            unfold gapF
+            simp only []
+            rw [hlive', e1, e2]
+          · rw [if_neg hil']
 
 end C13
 end Pymoode
